@@ -95,7 +95,9 @@ class HStory:
             if kind not in K:
                 continue
             for tgt in refs_t:
-                cands = new[:2] + ([tgt] if tgt in ids else [])
+                # an unresolvable target must not be replaced by anything - not even by a payload whose
+                # ID happens to exist already (no duplicate can arise if the merge is refused)
+                cands = new[:2] + ([tgt] if tgt in ids else ids[:2])
                 for pl in _lists(cands, 0, L):
                     if n - 1 + len(pl) > self.cap:
                         res.disabled['cap:' + kind] += 1
@@ -125,6 +127,15 @@ class HStory:
             for a in refs_s:
                 for b in refs_s:
                     yield {'kind': 'EAStorySwap', 'srcs': (a, b)}
+        # story DELETE / SWAP do not need an element_target, but may legally carry one (MOS: "an empty
+        # storyID tag, or the element_target tag itself is absent"); a filled-in one must be ignored
+        for etgt in ([BLANK] + ids[:1] + ids[-1:]):
+            if 'EAStoryDelete' in K and n:
+                for src in ids[:2]:
+                    if src != etgt:
+                        yield {'kind': 'EAStoryDelete', 'srcs': (src,), 'packing': 'one', 'etgt': etgt}
+            if 'EAStorySwap' in K and n >= 2 and etgt == BLANK:
+                yield {'kind': 'EAStorySwap', 'srcs': (ids[0], ids[-1]), 'etgt': etgt}
         if 'StorySend' in K:
             for sid in refs_s:
                 if self.send_bodies and sid in ids:
@@ -174,11 +185,13 @@ def render_case(case, story_fn, item_fn):
     if k == 'StoryDelete':
         return g.msg_story_delete(case['srcs'])
     if k == 'EAStoryDelete':
-        return g.msg_ea('DELETE', sources=[g.id_tag('storyID', s) for s in case['srcs']],
-                        packing=case.get('packing', 'one'), target_present=case.get('empty_target', False))
+        etgt = case.get('etgt', ABSENT)
+        return g.msg_ea('DELETE', sources=[g.id_tag('storyID', s) for s in case['srcs']], target_story=etgt,
+                        packing=case.get('packing', 'one'), target_present=etgt != ABSENT or case.get('empty_target', False))
     if k == 'EAStorySwap':
+        etgt = case.get('etgt', BLANK if case.get('empty_target') else ABSENT)
         return g.msg_ea('SWAP', sources=[g.id_tag('storyID', s) for s in case['srcs']],
-                        target_present=case.get('empty_target', False), target_story=BLANK)
+                        target_present=etgt != ABSENT, target_story=etgt)
     if k == 'StorySend':
         return g.msg_story_send(case['sid'], variant=1, body=case.get('body', (('p', 'plain'), ('i', 'a'))),
                                 timing=case.get('timing', 'dur'), rich=case.get('rich', False),
@@ -300,7 +313,7 @@ class HItem:
                     continue
                 tg = r_t + ([ABSENT] if kind == 'ItemReplace' else [])
                 for tgt in tg:
-                    cands = new[:2] + ([tgt] if tgt in ids else [])
+                    cands = new[:2] + ([tgt] if tgt in ids else ids[:2])
                     for pl in _lists(cands, 0 if full else 1, LL):
                         if full and n - 1 + len(pl) > self.cap:
                             res.disabled['cap:' + kind] += 1
@@ -346,7 +359,8 @@ class HItem:
 
 
 # ---------------------------------------------------------------- H-MIXED
-META_KEYS = ('roSlug', 'roEdStart', 'roChannel', 'roTrigger', 'mem1', 'mem2', 'mem3')
+META_KEYS = ('roSlug', 'mem1', 'roEdStart', 'mem2', 'roChannel', 'roTrigger', 'mem3')
+META_KEYS_MSG = META_KEYS + ('mem0', 'memB')     # carried by messages only
 
 
 def meta_elem_xml(key, variant=1):
@@ -359,6 +373,10 @@ def meta_elem_xml(key, variant=1):
         return f'<roChannel>chan{variant}</roChannel>'
     if key == 'roTrigger':
         return f'<roTrigger how="new{variant}">MANUAL</roTrigger>'
+    if key == 'mem0':       # mosExternalMetadata without any mosSchema
+        return f'<mosExternalMetadata><mosPayload><roNote v="{variant}">no schema</roNote></mosPayload></mosExternalMetadata>'
+    if key == 'memB':       # blank mosSchema
+        return f'<mosExternalMetadata><mosSchema/><mosPayload><roNote v="{variant}">blank schema</roNote></mosPayload></mosExternalMetadata>'
     if key.startswith('mem'):
         n = key[3:]
         return gen.mem_xml(f'ro.schema.{n}', f'<roNote v="{variant}" k={gen.quoteattr(gen.SPECIAL)}>replaced {n}<deep><x/>t</deep></roNote>')
@@ -374,6 +392,8 @@ def meta_key_of(elem):
 
 
 def meta_key_tuple(key):
+    if key in ('mem0', 'memB'):
+        return ('mosExternalMetadata', None)
     if key.startswith('mem'):
         return ('mosExternalMetadata', f'ro.schema.{key[3:]}')
     return (key, None)
@@ -462,8 +482,10 @@ class HMixed:
                             yield {'kind': kind, 'story': sref, 'tgt': tgt, 'payload': tuple((i, 0) for i in pl)}
             for kind in ('ItemReplace', 'EAItemReplace'):
                 if kind in K:
-                    for tgt in r_t:
-                        cands = new[:1] + ([tgt] if tgt in ids else [])
+                    for tgt in r_t + [ABSENT]:
+                        if tgt == ABSENT and kind == 'EAItemReplace':
+                            continue    # without an itemID in the target this is a story REPLACE
+                        cands = new[:1] + ([tgt] if tgt in ids else ids[:1])
                         for pl in _lists(cands, 1, LL):
                             if full and n - 1 + len(pl) > self.icap:
                                 res.disabled['cap:' + kind] += 1
@@ -485,7 +507,7 @@ class HMixed:
         # ---- running-order level
         if 'MetaDataReplace' in K:
             for n in range(1, self.meta_subsets + 1):
-                for keys in itertools.combinations(META_KEYS, n):
+                for keys in itertools.combinations(META_KEYS_MSG, n):
                     yield {'kind': 'MetaDataReplace', 'elems': keys}
         if 'RunningOrderReplace' in K:
             for ids, layout in (((), 'before'), (('E',), 'after'), (('A', 'E'), 'before'), (('AB', 'A'), 'between')):
@@ -622,8 +644,11 @@ class HPayload:
                     for pkind in self.PKINDS:
                         yield {'kind': 'RunningOrderReplace', 'stories': tuple(gen.STORY_POOL[:n]), 'layout': layout,
                                'pkind': pkind, 'pretty': pretty}
-            for n in range(1, len(self.meta_keys) + 1):
-                for keys in itertools.combinations(self.meta_keys, n):
+            mk = tuple(self.meta_keys) + ('mem0', 'memB')
+            for n in range(1, len(mk) + 1):
+                for keys in itertools.combinations(mk, n):
+                    if 'mem0' in keys and 'memB' in keys:
+                        continue     # both have the blank schema: the second would legitimately replace the first
                     yield {'kind': 'MetaDataReplace', 'elems': keys, 'pretty': pretty}
 
     def render(self, case, view):
